@@ -190,8 +190,8 @@ theorem iterations_ext (fuel : Nat) (r : Recipe) (k : Nat) : ∀ (c : Ctx) (cont
       · exact ((extAll fuel).2.2.2.2.2 _ _ _ _ _ _ hs).trans
           ((resetSlots_same s1).ext.trans (ih _ _ _ _ _ h))
 
-theorem chain_ext (fuel : Nat) (r : Recipe) (parts : List Nat) : ∀ (cont : Bool) (s s' : St),
-    chain fuel r parts cont s = .ok s' → Ext s s' := by
+theorem chain_ext (fuel : Nat) (r : Recipe) (fs : Bool) (parts : List Nat) : ∀ (cont : Bool) (s s' : St),
+    chain fuel r fs parts cont s = .ok s' → Ext s s' := by
   induction parts with
   | nil =>
     intro cont s s' h
@@ -208,12 +208,12 @@ theorem chain_ext (fuel : Nat) (r : Recipe) (parts : List Nat) : ∀ (cont : Boo
       · exact (iterations_ext fuel r k _ _ _ _ _ hi).trans
           ((saveLoad_same s1).ext.trans (ih _ _ _ h))
 
-theorem runChain_clean (fuel : Nat) (r : Recipe) (parts : List Nat) :
-    CleanRows (runChain fuel r parts).out := by
+theorem runChain_clean (fuel : Nat) (r : Recipe) (parts : List Nat) (fs : Bool) :
+    CleanRows (runChain fuel r parts fs).out := by
   unfold runChain
   split
   · next s hs =>
-    exact (chain_ext fuel r parts _ _ _ hs).clean CleanRows.nil
+    exact (chain_ext fuel r fs parts _ _ _ hs).clean CleanRows.nil
   · exact CleanRows.nil
   · exact CleanRows.nil
   · exact CleanRows.nil
